@@ -94,6 +94,11 @@ class GenDir:
                 el['electron_shells'] = gen.gen_element_shells(rng, lmax=rng.randint(2, 3), allow_fused=False)
             if kind in ('ecp', 'both'):
                 pots, ne = gen.gen_ecp(rng)
+                if getattr(self, '_spinorbit', False) and len(pots) >= 2:
+                    # a spin-orbit potential after the scalar ones (the element then carries two ECP types)
+                    so = copy.deepcopy(pots[1])
+                    so['ecp_type'] = 'spinorbit_ecp'
+                    pots.append(so)
                 el['ecp_potentials'] = pots
                 el['ecp_electrons'] = ne
             els[str(z)] = el
@@ -141,12 +146,16 @@ class GenDir:
         from basis_set_exchange import misc
         fbase = misc.basis_name_to_filename(base)
         sub = rng.choice(['', 'sub%d' % i])
+        if i > 0 and rng.random() < 0.3:
+            # a differently named basis whose files have the same base name as those of basis 0, in another sub-directory
+            fbase, sub = self.bases[0]['basename'], 'twin%d' % i
         zs = sorted(rng.sample(range(1, 60), rng.randint(1, 5)))
         nver = rng.randint(1, 3)
         # version labels with one and two digits (the index orders them as numbers; file names carry them between dots)
         versions = [str(v) for v in (range(nver) if rng.random() < 0.5 else sorted(rng.sample([0, 1, 2, 9, 10, 11, 12], nver)))]
         names = [base] + (['%s-alias' % base] if rng.random() < 0.4 else [])
-        self.files['%s.metadata.json' % fbase] = {
+        # the metadata file lives beside the table files
+        self.files[os.path.join(sub, '%s.metadata.json' % fbase) if sub else '%s.metadata.json' % fbase] = {
             'molssi_bse_schema': _schema('metadata'), 'names': names, 'tags': [], 'family': family,
             'description': 'generated basis %d' % i, 'role': rng.choice(['orbital', 'orbital', 'jkfit']),
             'auxiliaries': {} if i == 0 or rng.random() < 0.5 else {'jkfit': 'Gen-0' if rng.random() < 0.5 else ['Gen-0', base]}}
@@ -156,6 +165,7 @@ class GenDir:
         has_pol = rng.random() < 0.6
         has_ecp = rng.random() < 0.4 and any(z > 10 for z in zs)
         ecp_zs = [z for z in zs if z > 10 and rng.random() < 0.7] or [z for z in zs if z > 10][:1]
+        self._spinorbit = has_ecp and rng.random() < 0.35        # the same for every version: the index refuses differing function types
         for ver in versions:
             comp_sub = sub or 'comps'
             # components: one shared orbital component for all elements + optionally extra polarisation and ECP components
@@ -192,12 +202,6 @@ class GenDir:
             self.files[tfile] = {'molssi_bse_schema': _schema('table'), 'revision_description': 'rev %s of %s' % (ver, base),
                                  'revision_date': '2020-01-%02d' % (int(ver) + 1),
                                  'elements': {str(z): efile for z in order}}
-            if sub:
-                # the metadata file lives beside the table files
-                self.files[os.path.join(sub, '%s.metadata.json' % fbase)] = self.files.get('%s.metadata.json' % fbase) \
-                    or self.files[os.path.join(sub, '%s.metadata.json' % fbase)]
-        if sub:
-            self.files.pop('%s.metadata.json' % fbase, None)
         self.bases.append({'names': names, 'basename': fbase, 'sub': sub, 'versions': versions, 'elements': tzs})
 
     def _break(self, how):
